@@ -200,6 +200,23 @@ PROPS = {
         "assumptions": ["the mutation stream is a sample of malformed documents, not an enumeration"],
         "timeout": 300,
     },
+    "C14": {
+        "props_module": "Redproxy.Props.C14",
+        "mode": "c14",
+        "translators": ["locksites.py"],
+        "rule": "in process: real http and socks listeners, direct connectors, the real MetricsServer (axum) on loopback; scenarios with three stalled "
+                "clients each: stalled before sending anything / mid method / mid target / after the request line / mid header (http), mid hello / "
+                "after hello / mid request / mid SOCKS4 user id (socks), (thorough: at every byte offset of a CONNECT request), a tunnel blocked on "
+                "a peer that never reads, an upstream connect that never completes (DNS server that never answers), an open idle tunnel during a "
+                "rule reload; in each scenario every API endpoint (status, live, history, rules, metrics, POST rules) must answer within 2 s and a "
+                "fresh connection through each listener must be served within 2 s; stalled clients accumulate across scenarios; plus the lock-site "
+                "table regenerated from the source; non-trivial = every scenario; distinct = case lines",
+        "nontrivial": lambda c, i: True,
+        "trusted_base": ["translate/locksites.py (textual, brace-level) extracts the guards held across awaits; the lock model Redproxy/Model/Locks.lean "
+                         "treats every lock as exclusive", "scenario conformance is timing based (2 s bound on loopback)"],
+        "assumptions": ["tokio Mutex / RwLock semantics; a listener callback writes one short reply (fits the socket buffer) while the connection's lock is held"],
+        "timeout": 600,
+    },
     "C08": {
         "props_module": "Redproxy.Props.C08",
         "mode": "c08",
